@@ -709,6 +709,7 @@ htp_status_t htp_mpart_part_handle_data(htp_multipart_part_t *part, const unsign
                 // Is there a pending header?
                 if (part->parser->pending_header_line == NULL) {
                     if (line != NULL) {
+                        bstr_adjust_len(line, len);
                         part->parser->pending_header_line = line;
                         line = NULL;
                     } else {
@@ -737,6 +738,7 @@ htp_status_t htp_mpart_part_handle_data(htp_multipart_part_t *part, const unsign
                         bstr_free(part->parser->pending_header_line);
 
                         if (line != NULL) {
+                            bstr_adjust_len(line, len);
                             part->parser->pending_header_line = line;
                             line = NULL;
                         } else {
